@@ -87,10 +87,10 @@ type Unit struct {
 }
 
 type Check struct {
-	Prop  string
-	Level string
-	Units func(tier string) []Unit
-	Rule  string
+	Prop        string
+	Level       string
+	Units       func(tier string) []Unit
+	Rule        string
 	Assumptions []string
 }
 
